@@ -118,7 +118,14 @@ def gen(rng, tier):
                     elif q >= len(d) and q < 500:
                         d = d + [50] * (q - len(d)) + [rng.choice(ph)]
             docs.append(d)
-        cases.append({"docs": docs, "tokz": "ws", "opts": {}, "queries": [["slop", ph, slop]]})
+        # several slop values for the same phrase on ONE index (answers must not depend on the order of the queries),
+        # caches switched on for short postings in half of the cases
+        slops = [slop]
+        if rng.random() < 0.6:
+            slops += [s2 for s2 in rng.sample([1, 2, 3, 5, 8, 12, 25, 40], rng.randint(1, 3)) if s2 != slop]
+            rng.shuffle(slops)
+        opts = {"cache_gt_than": rng.choice([0, 0, 1])} if rng.random() < 0.5 else {}
+        cases.append({"docs": docs, "tokz": "ws", "opts": opts, "queries": [["slop", ph, s2] for s2 in slops]})
     return cases
 
 
@@ -130,15 +137,16 @@ def model_req(case):
     """the faithful model AND the diagnostic variant (stale position bit cleared, Span/Span_Variant.v): the variant is
     used only by the known-finding classifier below"""
     from harness.common import sx
-    ph, slop = case["queries"][0][1], case["queries"][0][2]
-    return sx(["index_query", 0, len(case["docs"]) + 1, K.docs_sx(case["docs"]), [["slop", ph, slop], ["slopv", ph, slop]]])
+    qs = [["slop", q[1], q[2]] for q in case["queries"]] + [["slopv", q[1], q[2]] for q in case["queries"]]
+    return sx(["index_query", 0, len(case["docs"]) + 1, K.docs_sx(case["docs"]), qs])
 
 
 def model_decode(c, r):
     if r[0] != "ok":
         return {"build_exc": r[1]} if r[0] == "exc" else {"modelfault": r}
     vals = [(["ok", v[1]] if v[0] == "ok" else (["exc", v[1]] if v[0] == "exc" else ["modelfault", v])) for v in r[1]]
-    return {"q": vals[:1], "x": [], "variant": vals[1:2]}
+    n = len(c["queries"])
+    return {"q": vals[:n], "x": [], "variant": vals[n:2 * n]}
 
 
 def spec_decode(c, r):
@@ -147,8 +155,8 @@ def spec_decode(c, r):
     return d
 
 
-def _clauses_ok(case, got, spec):
-    ph, slop = case["queries"][0][1], case["queries"][0][2]
+def _clauses_ok(case, got, spec, qi=0):
+    ph, slop = case["queries"][qi][1], case["queries"][qi][2]
     if got[0] != "ok" or spec[0] != "ok" or len(got[1]) != len(spec[1]):
         return False
     distinct = len(set(ph)) == len(ph)
@@ -168,7 +176,7 @@ def equal(case, a, b):
     if not isinstance(a, dict) or not isinstance(b, dict) or "q" not in a or "q" not in b:
         return False
     if b.get("spec"):
-        return _clauses_ok(case, a["q"][0], b["q"][0])
+        return len(a["q"]) == len(b["q"]) and all(_clauses_ok(case, x, y, i) for i, (x, y) in enumerate(zip(a["q"], b["q"])))
     return a["q"] == b["q"]
 
 
@@ -178,7 +186,7 @@ def _clf_stale_position_bit(case, params, ir=None, m=None, sp=None):
     continuation satisfies every clause on the same input.  Any other cause is still reported as a violation."""
     if not (isinstance(m, dict) and m.get("variant") and isinstance(sp, dict) and sp.get("q")):
         return False
-    return _clauses_ok(case, m["variant"][0], sp["q"][0])
+    return len(m["variant"]) == len(sp["q"]) and all(_clauses_ok(case, x, y, i) for i, (x, y) in enumerate(zip(m["variant"], sp["q"])))
 
 
 CLASSIFIERS = {"stale_position_bit": _clf_stale_position_bit}
